@@ -50,10 +50,10 @@ def okFollow : Str → Bool
 /-- The text after a piece of a rendered predicate body. -/
 structure RestOK (rest : Str) : Prop where
   follow : okFollow rest = true
-  nonl : rest.contains '\n' = false
+  nonl : '\n' ∉ rest
   last : ∀ c, rest.getLast? = some c → isWs c = false
 
-theorem RestOK.nil : RestOK [] := ⟨rfl, rfl, by simp⟩
+theorem RestOK.nil : RestOK [] := ⟨rfl, by simp, by simp⟩
 
 theorem okFollow_cases {rest : Str} (h : okFollow rest = true) :
     rest = [] ∨ ∃ c r, rest = c :: r ∧ (c = ' ' ∨ c = ')' ∨ c = ',') := by
@@ -199,6 +199,7 @@ theorem digitChar_ne_minus : ∀ d : Fin 10, digitChar d ≠ '-' := by decide
 theorem digitChar_ne_dot : ∀ d : Fin 10, digitChar d ≠ '.' := by decide
 theorem digitChar_ne_dq : ∀ d : Fin 10, digitChar d ≠ '"' := by decide
 theorem digitChar_ne_sq : ∀ d : Fin 10, digitChar d ≠ '\'' := by decide
+theorem isWs_digitChar : ∀ d : Fin 10, isWs (digitChar d) = false := by decide
 
 theorem all_isDigit_map (ds : List (Fin 10)) : (ds.map digitChar).all isDigit = true := by
   induction ds with
@@ -291,21 +292,21 @@ theorem numTok_lit (l : NumLit) (rest : Str) (hw : l.wf = true) (hs : numStop re
 
 /-- the first character of a numeral -/
 theorem numLit_head (l : NumLit) (hw : l.wf = true) :
-    ∃ c r, l.text = c :: r ∧ plainHead c = true ∧ c ≠ '"' ∧ c ≠ '\'' := by
+    ∃ c r, l.text = c :: r ∧ plainHead c = true ∧ c ≠ '"' ∧ c ≠ '\'' ∧ isWs c = false := by
   obtain ⟨neg, ip, fp⟩ := l
   cases neg with
-  | true => exact ⟨'-', _, rfl, by decide, by decide, by decide⟩
+  | true => exact ⟨'-', _, rfl, by decide, by decide, by decide, by decide⟩
   | false =>
     cases ip with
-    | cons d ds => exact ⟨digitChar d, _, rfl, plainHead_digitChar d, digitChar_ne_dq d, digitChar_ne_sq d⟩
+    | cons d ds => exact ⟨digitChar d, _, rfl, plainHead_digitChar d, digitChar_ne_dq d, digitChar_ne_sq d, isWs_digitChar d⟩
     | nil =>
       cases fp with
       | none => simp [NumLit.wf] at hw
-      | some f => exact ⟨'.', _, rfl, by decide, by decide, by decide⟩
+      | some f => exact ⟨'.', _, rfl, by decide, by decide, by decide, by decide⟩
 
 theorem restTok_num (nm : Num N) (l : NumLit) (x : N) (rest : Str) (hw : l.wf = true) (hp : nm.parse l.text = some x)
     (hs : numStop rest) : restTok nm (l.text ++ rest) = some (.val (.num x), skipSp rest) := by
-  obtain ⟨c, r, ht, _, h1, h2⟩ := numLit_head l hw
+  obtain ⟨c, r, ht, _, h1, h2, _⟩ := numLit_head l hw
   have hn := numTok_lit l rest hw hs
   rw [ht] at hn ⊢
   simp only [List.cons_append] at hn ⊢
